@@ -15,7 +15,10 @@ use std::sync::Arc;
 #[derive(Clone, Debug, Serialize, Deserialize)]
 pub struct C16Case {
     pub n: i32,
-    /// 0 normal context, 1 inside the signal's own action, 2 signal blocked, 3 explicitly unblocked
+    /// 0 normal context, 1 inside the signal's own action, 2 signal blocked, 3 explicitly unblocked,
+    /// 4 called on a second thread while the main thread idles with the signal unblocked,
+    /// 5 inside the signal's own action running on a second thread (thread-directed delivery)
+    /// while the main thread idles with the signal unblocked
     pub ctx: u8,
     pub block_others: Vec<i32>,
     pub pre_ignore: bool,
@@ -215,7 +218,7 @@ fn emulated(case: &C16Case) -> (Vec<Value>, Obs) {
                 unsafe { libc::raise(*o) };
             }
         }
-        if case.pre_ignore && (1..=64).contains(&n) && n != libc::SIGKILL && n != libc::SIGSTOP && case.ctx != 1 {
+        if case.pre_ignore && (1..=64).contains(&n) && n != libc::SIGKILL && n != libc::SIGSTOP && case.ctx != 1 && case.ctx != 5 {
             set_disposition(n, libc::SIG_IGN);
         }
         let d0 = dispositions();
@@ -253,6 +256,74 @@ fn emulated(case: &C16Case) -> (Vec<Value>, Obs) {
                     }
                 }
             }
+            4 => {
+                // on a second thread; the main thread stays around with the signal unblocked
+                let done = Arc::new(AtomicBool::new(false));
+                let d2 = done.clone();
+                let h = std::thread::spawn(move || {
+                    let r = signal_hook::low_level::emulate_default_handler(n);
+                    match r {
+                        Ok(()) => emit(fd, &json!({"k": "ok", "unchanged": dispositions() == d0})),
+                        Err(e) => emit(fd, &json!({"k": "err", "errno": e.raw_os_error(), "unchanged": dispositions() == d0})),
+                    }
+                    d2.store(true, std::sync::atomic::Ordering::SeqCst);
+                });
+                let start = std::time::Instant::now();
+                while !done.load(std::sync::atomic::Ordering::SeqCst) && start.elapsed().as_millis() < 3000 {
+                    std::thread::sleep(std::time::Duration::from_micros(100));
+                }
+                let _ = h;
+                emit(fd, &json!({"k": "alive"}));
+            }
+            5 => {
+                use std::os::unix::thread::JoinHandleExt;
+                let after = Arc::new(AtomicBool::new(false));
+                let forbidden = [libc::SIGILL, libc::SIGFPE, libc::SIGSEGV].contains(&n);
+                let a2 = after.clone();
+                let r = if forbidden {
+                    unsafe {
+                        signal_hook_registry::register_unchecked(n, move |_| {
+                            let _ = signal_hook::low_level::emulate_default_handler(n);
+                            a2.store(true, std::sync::atomic::Ordering::SeqCst);
+                        })
+                    }
+                    .map(|_| ())
+                } else {
+                    match std::panic::catch_unwind(|| signal_hook::flag::register_conditional_default(n, Arc::new(AtomicBool::new(true)))) {
+                        // a plain flag registered afterwards runs after the emulation returned
+                        Ok(r) => r.and_then(|_| signal_hook::flag::register(n, a2)).map(|_| ()),
+                        Err(_) => {
+                            emit(fd, &json!({"k": "reg-panic"}));
+                            emit(fd, &json!({"k": "alive"}));
+                            return;
+                        }
+                    }
+                };
+                match r {
+                    Ok(()) => {
+                        emit(fd, &json!({"k": "registered"}));
+                        let stop = Arc::new(AtomicBool::new(false));
+                        let s2 = stop.clone();
+                        let h = std::thread::spawn(move || {
+                            while !s2.load(std::sync::atomic::Ordering::SeqCst) {
+                                std::thread::sleep(std::time::Duration::from_micros(100));
+                            }
+                        });
+                        unsafe { libc::pthread_kill(h.as_pthread_t(), n) };
+                        let start = std::time::Instant::now();
+                        while !after.load(std::sync::atomic::Ordering::SeqCst) && start.elapsed().as_millis() < 3000 {
+                            std::thread::sleep(std::time::Duration::from_micros(100));
+                        }
+                        stop.store(true, std::sync::atomic::Ordering::SeqCst);
+                        emit(fd, &json!({"k": "alive"}));
+                    }
+                    Err(e) => {
+                        let same = dispositions() == d0;
+                        emit(fd, &json!({"k": "err", "errno": e.raw_os_error(), "unchanged": same}));
+                        emit(fd, &json!({"k": "alive"}));
+                    }
+                }
+            }
             c => {
                 if c == 2 {
                     mask(libc::SIG_BLOCK, &[n]);
@@ -273,7 +344,7 @@ fn emulated(case: &C16Case) -> (Vec<Value>, Obs) {
 pub fn run_case(case: &C16Case) -> CaseReport {
     let mut rep = CaseReport::default();
     let n = case.n;
-    let ctxname = ["normal", "in-handler", "blocked", "unblocked"][case.ctx as usize % 4];
+    let ctxname = ["normal", "in-handler", "blocked", "unblocked", "second-thread", "in-handler-on-second-thread"][case.ctx as usize % 6];
     rep.hash = hash_of(&(n, case.ctx, &case.block_others, case.pre_ignore, case.pend_others));
     if case.pend_others && !case.block_others.is_empty() {
         rep.class("other-signals-blocked-and-pending");
@@ -288,7 +359,7 @@ pub fn run_case(case: &C16Case) -> CaseReport {
         }
     }
     // in-handler context impossible for KILL/STOP: nothing to compare
-    if case.ctx == 1 && (n == libc::SIGKILL || n == libc::SIGSTOP) {
+    if (case.ctx == 1 || case.ctx == 5) && (n == libc::SIGKILL || n == libc::SIGSTOP) {
         rep.sample = Some(json!({"n": n, "ctx": ctxname, "skipped": "cannot be caught"}));
         return rep;
     }
@@ -338,7 +409,7 @@ pub fn run_case(case: &C16Case) -> CaseReport {
                     rep.viol(&format!("C16/unknown-side-effect/sig={}", n), format!("emulating unknown signal {} changed dispositions", n));
                 }
             }
-            (Obs::Continues, None) if case.ctx == 1 && recs.iter().any(|r| r["k"] == "reg-panic") => {}
+            (Obs::Continues, None) if (case.ctx == 1 || case.ctx == 5) && recs.iter().any(|r| r["k"] == "reg-panic") => {}
             _ => {
                 rep.viol(
                     &format!("C16/unknown/sig={}", n),
@@ -354,7 +425,7 @@ pub fn run_case(case: &C16Case) -> CaseReport {
 pub fn strategy() -> BoxedStrategy<C16Case> {
     (
         prop_oneof![6 => 1i32..65, 1 => proptest::sample::select(vec![0, -1, 65, 128, i32::MAX, i32::MIN])],
-        0u8..4,
+        0u8..6,
         vec(prop_oneof![2 => 1i32..65, 3 => proptest::sample::select(vec![libc::SIGTERM, libc::SIGINT, libc::SIGUSR1, libc::SIGHUP, libc::SIGQUIT, libc::SIGALRM])], 0..4),
         any::<bool>(),
         any::<bool>(),
@@ -373,7 +444,7 @@ fn extra(def: &PropDef, _args: &WorkerArgs, report: &mut WorkerReport) {
     let mut nums: Vec<i32> = (1..=64).collect();
     nums.extend([0, -1, 65, 128, i32::MAX]);
     for n in nums {
-        for ctx in 0..4u8 {
+        for ctx in 0..6u8 {
             let case = C16Case { n, ctx, block_others: vec![], pre_ignore: false, pend_others: false };
             let rep = run_case(&case);
             if let Some(v) = report.absorb(def, &rep, &known) {
@@ -404,7 +475,7 @@ fn replay(v: &Value) -> CaseReport {
 pub static C16: PropDef = PropDef {
     id: "C16",
     prefixes: &["C16/"],
-    rule: "forkprobe differential: signal number (1..64 and out-of-range) x context {normal, inside the signal's own action, blocked, unblocked} enumerated completely by worker 0, plus proptest-generated extras (other signals blocked, signal ignored beforehand); each probe is a forked child alone in a fresh non-orphaned process group observed with waitpid(WUNTRACED). Oracle: outcome class {terminated by signal n, stopped, continues} of emulate_default_handler equals the kernel's own default action measured by a native probe (SIG_DFL + raise) in the same run; unknown numbers return an error and change no disposition; signal_name equals a name the C headers give that number. Non-trivial = named signal or non-normal context; distinct = (number, context, extras)",
+    rule: "forkprobe differential: signal number (1..64 and out-of-range) x context {normal, inside the signal's own action, blocked, unblocked, on a second thread with the main thread idle and the signal unblocked there, inside the action on a second thread (thread-directed delivery)} enumerated completely by worker 0, plus proptest-generated extras (other signals blocked, signal ignored beforehand); each probe is a forked child alone in a fresh non-orphaned process group observed with waitpid(WUNTRACED). Oracle: outcome class {terminated by signal n, stopped, continues} of emulate_default_handler equals the kernel's own default action measured by a native probe (SIG_DFL + raise) in the same run; unknown numbers return an error and change no disposition; signal_name equals a name the C headers give that number. Non-trivial = named signal or non-normal context; distinct = (number, context, extras)",
     assumptions: &[
         "the kernel of this sandbox is the reference (Linux); probes run in a non-orphaned process group so terminal stop signals stop",
         "platform names come from `cc -dM -E <signal.h>` at check time (fallback: the libc crate's constants)",
